@@ -18,7 +18,9 @@ from mc.report import add_sample, add_violation, count, new_part
 LEVEL = "exploration"
 RULE = ("message type x (every value of each field's lattice against a low and a high background); arrays: all of length "
         "0..4 (quick) / 0..5 (thorough) over {None,0,1,-1,INT_MAX,INT_MIN}, single-None and single-defined patterns for "
-        "lengths 5..64; subroutine messages over short instruction sequences; distinct = distinct (type, field values); "
+        "lengths 5..64; subroutine messages over short instruction sequences; every sequence of up to 3 (quick) / 4 (thorough) "
+        "operations on one message object (serialise, len, str, set a field, edit the value list in place or replace it) "
+        "followed by serialise -> deserialise against the object's final state; distinct = distinct (type, field values); "
         "non-trivial = not the all-default message")
 ASSUMPTIONS = ["field values inside their declared widths (u8, u32, i32); 32-bit fields on the boundary lattice"]
 
@@ -266,9 +268,120 @@ def shard_subroutine(shard):
     return part
 
 
+# --------------------------------------------------------------------------- object histories
+# Message objects are mutable (ctypes fields; ReturnArrayMessage.address / .values, the list is the caller's own list).  A
+# message "deserialises from its own bytes ... with the same field values" must hold in every state such an object can be
+# brought into, also when it was serialised, measured (len) or printed before: all operation sequences up to a depth.
+def _history_ops(target: str):
+    """-> (constructor kwargs, [op names]); ops are interpreted by run_history."""
+    if target == "ReturnArrayMessage":
+        return ["bytes", "len", "str", "address=5", "address=-1", "set0=None", "set0=7", "setlast=-3", "append=None", "append=9",
+                "pop", "values=[1,None]", "values=[]"]
+    if target == "SubroutineMessage":
+        return ["bytes", "len", "sub=A", "sub=B", "sub=empty"]
+    fields = (HOST_FIELDS.get(target) or RET_FIELDS.get(target))
+    return ["bytes", "len", "str"] + [f"{f[0]}={v}" for f in fields for v in (f[2], f[3])]
+
+
+SUB_PAYLOADS = {"A": bytes([0, 0, 5, 0]) + bytes([4, 4, 7, 0, 0, 0, 0]), "B": bytes([2, 2, 9, 0]), "empty": b""}
+
+
+def run_history(target: str, init: int, ops, part) -> None:
+    from netqasm.backend import messages as M
+    case = {"class": target, "init": init, "history": list(ops)}
+    try:
+        if target == "ReturnArrayMessage":
+            model = {"address": 2, "values": [[], [None, 4], [0]][init]}
+            model["values"] = list(model["values"])
+            msg = M.ReturnArrayMessage(address=2, values=list(model["values"]))
+        elif target == "SubroutineMessage":
+            model = {"subroutine": SUB_PAYLOADS["A"]}
+            msg = M.SubroutineMessage(SUB_PAYLOADS["A"])
+        else:
+            fields = (HOST_FIELDS.get(target) or RET_FIELDS.get(target))
+            model = {f[0]: (f[2], f[3])[init % 2] for f in fields}
+            msg = getattr(M, target)(**model)
+        for op in ops:
+            if op == "bytes":
+                bytes(msg)
+            elif op == "len":
+                len(msg)
+            elif op == "str":
+                str(msg)
+            elif target == "ReturnArrayMessage":
+                vals = model["values"]
+                if op.startswith("address="):
+                    model["address"] = int(op[8:])
+                    msg.address = model["address"]
+                elif op.startswith("set0=") or op.startswith("setlast="):
+                    if vals:
+                        v = None if op.endswith("None") else int(op.split("=")[1])
+                        i = 0 if op.startswith("set0") else len(vals) - 1
+                        vals[i] = v
+                        msg.values[i] = v
+                elif op.startswith("append="):
+                    v = None if op.endswith("None") else int(op.split("=")[1])
+                    vals.append(v)
+                    msg.values.append(v)
+                elif op == "pop":
+                    if vals:
+                        vals.pop()
+                        msg.values.pop()
+                elif op == "values=[1,None]":
+                    model["values"] = [1, None]
+                    msg.values = [1, None]
+                elif op == "values=[]":
+                    model["values"] = []
+                    msg.values = []
+            elif target == "SubroutineMessage":
+                model["subroutine"] = SUB_PAYLOADS[op[4:]]
+                msg.subroutine = model["subroutine"]
+            else:
+                name, v = op.split("=")
+                model[name] = int(v)
+                setattr(msg, name, int(v))
+        raw = bytes(msg)
+        dec = (M.deserialize_host_msg if target in HOST_FIELDS or target == "SubroutineMessage" else M.deserialize_return_msg)(raw)
+    except Exception as exc:
+        add_violation(part, f"history-raises/{target}", f"{type(exc).__name__}: {exc}", case)
+        return
+    if type(dec).__name__ != target:
+        add_violation(part, f"history/{target}/type", f"after {list(ops)} the message deserialises as {type(dec).__name__}", case)
+        return
+    got = {}
+    for k in model:
+        g = getattr(dec, k)
+        if callable(g):
+            g = g()
+        got[k] = list(g) if isinstance(model[k], list) else g
+    for k in model:
+        if got[k] != model[k]:
+            add_violation(part, f"history/{target}/{k}", f"after {list(ops)} the message holds {k}={model[k]!r} but its bytes "
+                          f"deserialise to {k}={got[k]!r}", case)
+            return
+
+
+def shard_history(shard):
+    _, target, init, first, depth = shard
+    part = new_part()
+    ops = _history_ops(target)
+    n = 0
+    for d in range(0, depth):
+        for rest in itertools.product(ops, repeat=d):
+            n += 1
+            run_history(target, init, (first,) + rest, part)
+    part["evals"] += n
+    part["distinct"] += n
+    count(part, "histories", n)
+    count(part, f"histories/{target}", n)
+    if first == "bytes" and init == 1 and target == "ReturnArrayMessage":
+        add_sample(part, {"class": target, "history": ["bytes", "set0=7", "len"], "oracle": "final bytes deserialise to the final field values"})
+    return part
+
+
 def _dispatch(shard):
     return {"struct": shard_struct, "enums": shard_enums, "retreg": shard_retreg, "arrays": shard_arrays,
-            "sub": shard_subroutine}[shard[0]](shard)
+            "sub": shard_subroutine, "history": shard_history}[shard[0]](shard)
 
 
 def run(ctx):
@@ -287,7 +400,16 @@ def run(ctx):
     for n in range(5, 65):
         shards.append(("arrays", "patterns", n))
     shards.append(("arrays", "address", None))
+    depth = 3 if ctx.tier == "quick" else 4
+    targets = ["ReturnArrayMessage", "SubroutineMessage"] + list(HOST_FIELDS) + list(RET_FIELDS)
+    for t in targets:
+        for init in ((0, 1, 2) if t == "ReturnArrayMessage" else (0, 1) if t != "SubroutineMessage" else (0,)):
+            for first in _history_ops(t):
+                shards.append(("history", t, init, first, depth + (1 if len(_history_ops(t)) < 8 else 0)))
+    ctx.extra["history_depth"] = depth
     ctx.pmap(_dispatch, shards)
+    for t in targets:
+        ctx.require(f"histories/{t}", 100)
     for t in ("InitNewAppMessage", "OpenEPRSocketMessage", "StopAppMessage", "MsgDoneMessage", "SignalMessage",
               "ErrorMessage", "ReturnRegMessage", "SubroutineMessage"):
         ctx.require(f"type/{t}", 1)
@@ -299,7 +421,9 @@ def run(ctx):
 
 def replay(case, part):
     cls = case.get("class")
-    if cls == "ReturnArrayMessage":
+    if "history" in case:
+        run_history(cls, case["init"], case["history"], part)
+    elif cls == "ReturnArrayMessage":
         check_array(case["address"], case["values"], part)
     elif cls in HOST_FIELDS or cls in RET_FIELDS:
         kind = "host" if cls in HOST_FIELDS else "ret"
